@@ -144,7 +144,7 @@ PROPS = {
             'non-trivial = history of >= 3 ops; distinct by input || stats engine: 1-3 blocks of 0-6 (0-30) samples over 3 metrics x 3 optional '
             'labels, exact duplicates, 0-2 keep/drop rules with literal regexes on __name__ or a label; real exposition parser + real '
             'relabel.Process; non-trivial = >= 2 samples',
-    'theorems': 'C14_counts C14_block_order C14_window C14_runtime',
+    'theorems': 'C14_counts C14_block_order C14_window C14_runtime C14_samples_add_up C14_last_statistics',
     'trusted_base': [   'model Model/Sidecar.v hand-written from targets.go/service.go/proxy.go/status.go; tie = step-by-step differential run '
                         '(exact equality of projected observables)',
                         'hook VerifSetTimeNow (clock); JobInfo.Cli replaced by an in-memory RoundTripper',
